@@ -21,13 +21,23 @@ def _fails(world, plan, prop, cls):
     return has_violation(ctx, prop, cls)
 
 
-def shrink(world, plan, prop, cls, wall_s=60.0, max_exec=20000):
+def _fails_isolated(world, plan, prop, cls):
+    """every candidate in a forked child: needed when the library under test keeps state between objects"""
+    from .runner import isolated
+    try:
+        return isolated(_fails, world, plan, prop, cls, timeout=120)
+    except Exception:
+        return None
+
+
+def shrink(world, plan, prop, cls, wall_s=60.0, max_exec=20000, isolate=False):
     t0 = time.time()
     execs = [0]
+    fails = _fails_isolated if isolate else _fails
 
     def ok(p):
         execs[0] += 1
-        return _fails(world, p, prop, cls) is not None
+        return fails(world, p, prop, cls) is not None
 
     def budget():
         return time.time() - t0 < wall_s and execs[0] < max_exec
@@ -39,7 +49,7 @@ def shrink(world, plan, prop, cls, wall_s=60.0, max_exec=20000):
     head, body = steps[:pinned], steps[pinned:]
 
     # truncate after the violating step first
-    v = _fails(world, plan, prop, cls)
+    v = fails(world, plan, prop, cls)
     if v is None:
         return plan, {"execs": execs[0], "reproduced": False}
     if v["step"] is not None and v["step"] + 1 < len(steps) and v["step"] + 1 >= pinned:
